@@ -95,7 +95,7 @@ def generate(seed, tier="quick"):
     steps = None if dw.ref.externals and o.random() < 0.5 else (o.randint(2, cfg["L"]) if has_clamp else o.randint(2, 14))
     return {"prop": PROPERTY, "shape": shape, "ops": ops, "persists": persists, "steps": steps, "dt": o.choice(DTS),
             "solver": o.choice(["bwd_euler", "bwd_euler", "crank_nicolson"]), "vsolver": o.choice(["jaxley.stone", "jaxley.thomas", "jax.sparse"]),
-            "grad": o.random() < 0.25}
+            "grad": o.random() < 0.25, "raw_group": o.choice([0, o.randrange(1, 1 << 16)])}
 
 
 def integ(w, m, program, params=None, steps="default"):
@@ -135,6 +135,11 @@ def compare_copies(w, a, b, program, how, i, with_grad):
     if sa != sb:
         w.violate("copy_equal", f"{how} copy differs in its tables: " + "; ".join(snap.diff(sa, sb)[:4]), i, {"how": how})
         return False
+    for g_ in a.groups:
+        ga, gb = np.asarray(a.groups[g_]).tolist(), np.asarray(b.groups.get(g_, [])).tolist()
+        if ga != gb:  # same members in another order: array-valued set / 2-D stimuli through the group view land elsewhere
+            w.violate("copy_equal", f"{how} copy stores group {g_!r} as {gb}, the original as {ga}", i, {"how": how})
+            return False
     if getattr(a, "_radius_generating_fns", None) is not None and getattr(b, "_radius_generating_fns", None) is None:
         w.violate("copy_equal", f"{how} copy lost the SWC radius-generating functions", i, {"how": how})
         return False
@@ -190,6 +195,21 @@ def compare_copies(w, a, b, program, how, i, with_grad):
     return True
 
 
+def raw_group(w, program):
+    """A group stored in non-ascending order (created from an unsorted select): its members are modelled as a set, its
+    stored order is only ever compared between a module and its copy."""
+    k = program.get("raw_group")
+    if not k or w.ref.n < 2:
+        return
+    a_, b_ = sorted([k % w.ref.n, (k // 7) % w.ref.n])
+    if a_ == b_:
+        b_ = (a_ + 1) % w.ref.n
+        a_, b_ = sorted([a_, b_])
+    with quiet():
+        w.m.select(nodes=[b_, a_]).add_to_group("zz_raw")
+    w.ref.groups["zz_raw"] = [a_, b_]
+
+
 def run_ops(w, ops, start=0):
     i = start
     for op in ops:
@@ -226,10 +246,12 @@ def execute(program):
     # ---- fault-free execution
     F = World(program["shape"])
     F.sim_ms = 0.0
+    raw_group(F, program)
     run_ops(F, ops)
     states = [snap.digest(abstract_state(F.ref))[:12]]
     w = World(program["shape"])
     w.sim_ms = 0.0
+    raw_group(w, program)
 
     def res():
         faults_ = sum(v for k, v in w.stats.items() if k.startswith("fault_"))
@@ -312,6 +334,7 @@ def execute(program):
     for fw, at, tail in forks:
         G = World(program["shape"])
         G.sim_ms = 0.0
+        raw_group(G, program)
         run_ops(G, ops[:at] + tail)
         if G.violations or fw.violations:
             continue  # the continuation itself misbehaves fault-free: C19's business
@@ -332,7 +355,7 @@ def execute(program):
 
 
 def simplify(program):
-    for field, simple in (("solver", "bwd_euler"), ("dt", 0.025), ("vsolver", "jax.sparse"), ("grad", False)):
+    for field, simple in (("solver", "bwd_euler"), ("dt", 0.025), ("vsolver", "jax.sparse"), ("grad", False), ("raw_group", 0)):
         if program.get(field) != simple:
             q = copy.deepcopy(program)
             q[field] = simple
